@@ -423,8 +423,16 @@ def run(ctx):
         except Exception as e:  # noqa: BLE001
             out = type(e).__name__
             mro = [c.__name__ for c in type(e).__mro__]
-        ctx.ev("root", "FAULT2:serialise-incomplete", "to_json of the finished program with the refused operation left in it", out)
+        ctx.ev("root", "FAULT2:serialise-incomplete", "to_json of the finished program after the refused call", out)
         if out == "returned":
-            ctx.violate("accepted", f"serialise-incomplete:after-a-refused-{kind}", {})
+            # either the refusal left nothing behind (then the document is that of the finished, valid program), or it left an
+            # operation without its inputs - and that one must not have been serialised as if it were complete
+            import json as _json
+            from ..oracles import refvalidate
+            bad = refvalidate.validate(_json.loads(sim.hugr.to_json()))
+            if bad:
+                ctx.violate("accepted", f"serialise-incomplete:after-a-refused-{kind}", {"document_violates": [f"{b[0]}/{b[1]}" for b in bad[:3]]})
+            else:
+                ctx.probe("refusal_left_nothing_behind")
         elif "IncompleteOp" not in mro:
             ctx.violate("wrong-exception", f"serialise-incomplete:{out}:after-a-refused-{kind}", {})
